@@ -669,7 +669,7 @@ namespace xtl
                         y = value_type(0) * (b*c - a*d);
                     }
                 }
-                return std::complex<value_type>(x, y);
+                return return_type(x, y);
             }
         };
     }
